@@ -23,6 +23,8 @@ type Clause struct {
 type LoopSpec struct {
 	Invariants []*Clause
 	Modifies   []SExpr
+	Writes     []string // source-level outer locals the loop may assign (syntactic obligation)
+	HasWrites  bool
 }
 
 type CallAssert struct {
@@ -46,6 +48,7 @@ type Contract struct {
 	Requires  []*Clause
 	Assumes   []*Clause // representation invariants assumed at entry (not checked at call sites; trusted)
 	Ensures   []*Clause
+	Lemmas    map[*Clause]bool // ensures that are checked but not exported to callers (may mention locals)
 	Modifies  []SExpr // nil = unspecified (anything)
 	HasMod    bool
 	Loops     map[int]*LoopSpec
@@ -383,7 +386,7 @@ func (p *parser) postfix(e SExpr) SExpr {
 // ---------------------------------------------------------------------------
 // contract file parsing
 
-var clauseKeywords = map[string]bool{"requires": true, "assumes": true, "ensures": true, "modifies": true, "loop": true, "at": true,
+var clauseKeywords = map[string]bool{"requires": true, "assumes": true, "ensures": true, "lemma": true, "modifies": true, "loop": true, "at": true,
 	"safe": true, "pure": true, "inline": true, "getter": true, "preserves": true, "end": true, "let": true, "props": true, "trusted": true}
 
 // parseContractFile reads every //@ line of a file.
@@ -625,12 +628,18 @@ func (ct *Contract) addClause(txt, file string, line int) error {
 			return err
 		}
 		ct.Assumes = append(ct.Assumes, c)
-	case "ensures":
+	case "ensures", "lemma":
 		c, err := mk(rest)
 		if err != nil {
 			return err
 		}
 		ct.Ensures = append(ct.Ensures, c)
+		if kw == "lemma" {
+			if ct.Lemmas == nil {
+				ct.Lemmas = map[*Clause]bool{}
+			}
+			ct.Lemmas[c] = true
+		}
 	case "let":
 		eq := strings.Index(rest, "=")
 		if eq < 0 {
@@ -676,6 +685,13 @@ func (ct *Contract) addClause(txt, file string, line int) error {
 				return err
 			}
 			ls.Modifies = append(ls.Modifies, ms...)
+		case "writes":
+			ls.HasWrites = true
+			for _, w := range strings.Split(body, ",") {
+				if w = strings.TrimSpace(w); w != "" && w != "nothing" {
+					ls.Writes = append(ls.Writes, w)
+				}
+			}
 		default:
 			return fmt.Errorf("loop clause kind %q", fields[2])
 		}
